@@ -10,6 +10,6 @@ CONSTANTS
   WM0 <- TWM0
 SPECIFICATION TSpec
 INVARIANTS MemExact
-PROPERTIES HitOnlyExactGen RemoveThenMiss EvictToLow SecondChance TouchSetsRef
+PROPERTIES HitOnlyExactGen RemoveThenMiss EvictToLow SecondChance TouchSetsRef RefOnlyByTouch
 POSTCONDITION TraceAccepted
 CHECK_DEADLOCK FALSE
